@@ -31,6 +31,15 @@
 #define VERIF_REACH_ENSURES(fn, cond)
 #endif
 
+#ifndef VERIF_ASSERT
+#ifdef VERIF_CBMC
+#define VERIF_ASSERT(c) __CPROVER_assert(c, "assert() in the code holds")
+#else
+#include <assert.h>
+#define VERIF_ASSERT(c) assert(c)
+#endif
+#endif
+
 typedef int64_t CAmount;
 
 #ifdef VERIF_CBMC
